@@ -24,7 +24,7 @@ from pathlib import Path
 from .. import common
 
 PROP = "C15"
-MODULES = ["XpmVerif.Properties.C15", "XpmVerif.Properties.C15Mro", "XpmVerif.Properties.C15Src"]
+MODULES = ["XpmVerif.Properties.C15", "XpmVerif.Properties.C15Mro", "XpmVerif.Properties.C15Src", "XpmVerif.Properties.C15X"]
 BASE = 1000  # class id of `Config` itself (every configuration is an instance)
 
 # ---------------------------------------------------------------------------
@@ -594,7 +594,7 @@ def has_union(t):
 
 INTS = [0, 1, -1, 2, 3, -7, 255, 2**53, 2**53 + 1, -(2**53) - 1, 10**30, -(10**30), 2**1023, 2**1024, 2**1024 - 2**970,
         2**1024 - 2**970 - 1, 2**70 + 2**17]
-FLOATS = [0.0, -0.0, 1.0, 2.0, -3.0, 2.5, -0.5, 1e300, 1e-300, 5e-324, 2.0**53, float(2**70), math.inf, -math.inf, math.nan,
+FLOATS = [0.0, -0.0, 1.0, 2.0, -3.0, 2.5, -0.5, -2.5, -1e-300, 1e300, 1e-300, 5e-324, 2.0**53, float(2**70), math.inf, -math.inf, math.nan,
           1.7976931348623157e308, 1e22, 123456789.0]
 STRS = ["", "a", "ab", "path", "$type", "x/y", "a//b/./c/", "/abs/p", "//net/x", "///t", "é", "中", "a b", ".", "..", "./r",
         "r/..", "/", "3", "2.5", "-1", "1e3", "nan", "inf", " 4 ", "True", "0"]
@@ -990,6 +990,14 @@ def gen_set_cases(ctx, rng, ntypes):
             vals.append(("cross", vg.cross(), 0))
         if rng.random() < 0.3:
             vals.append(("none", NONE, 0))
+        if set(ty_kinds(t, [])) <= {"int", "str", "bool", "list", "opt", "enum"} and rng.random() < 0.9:
+            # Argument.checker: `Annotated[T, Choices([...])]` — some of the conforming candidates are among the choices, some not
+            ch = [v for k_, v, _ in vals[:1] if v["k"] != "none"] + [vg.conforming(inner)]
+            if arg["default"] is not None:
+                ch.append(arg["default"])   # the default goes through `set` when an object is created: a class whose default its own checker refuses cannot be instantiated
+            arg["choices"] = [c for c in ch if c["k"] != "none"]
+            if not arg["choices"]:
+                del arg["choices"]
         out.append((arg, vals))
     return out
 
@@ -1003,7 +1011,15 @@ SPECIAL = [  # read-only arguments: generator, constant
 
 
 def arg_line(arg):
-    return {"ty": arg["ty"], "default": arg["default"] is not None, "generator": arg["generator"], "constant": arg["constant"]}
+    d = {"ty": arg["ty"], "default": arg["default"] is not None, "generator": arg["generator"], "constant": arg["constant"]}
+    if arg.get("choices"):
+        d["choices"] = arg["choices"]
+    return d
+
+
+def in_choices(arg, value, w):
+    """`Choices.check`: value == choice for some choice (python equality on the built values)"""
+    return any(value == build(c, w) for c in arg["choices"])
 
 
 def required(arg):
@@ -1028,18 +1044,24 @@ def run_set_cases(ctx, groups, with_model=True, source="generated"):
     impl = probe_impl(ctx)
     W0 = P.s_world()
     body = ["import json as _json", "from xv.props import c15 as _H", f"import {P.name}.lib as _L",
+            "from experimaestro.checkers import Choices as _Choices",
             "_W = _H.World({0: _L.E0, 1: _L.E1}, {0: _L.S0, 1: _L.S1, 2: _L.S2, 3: _L.S3}, dict(_H.S_MROS))"]
     for i, (arg, _) in enumerate(groups):
         ann = render_ty(arg["ty"], S_NAMES)
         dflt = ""
         if arg["default"] is not None:
             dflt = f" = _H.build(_json.loads({json.dumps(json.dumps(arg['default']))}), _W)"
-        body.append(f"\n\nclass C{i}(Config):\n    __xpmid__ = \"{P.name}.set{P.n + 1}.c{i}\"\n    x: Param[{ann}]{dflt}\n")
+        hint = f"Param[{ann}]"
+        if arg.get("choices"):
+            hint = f"Annotated[{ann}, _Choices([_H.build(_c, _W) for _c in _json.loads({json.dumps(json.dumps(arg['choices']))})])]"
+        body.append(f"\n\nclass C{i}(Config):\n    __xpmid__ = \"{P.name}.set{P.n + 1}.c{i}\"\n    x: {hint}{dflt}\n")
     # fourth entry point: the value is the DECLARED DEFAULT of the parameter (validated and coerced when the class is first
     # instantiated); the class is built inside a factory so that a rejected default raises at the call, like an assignment
     as_default = {}
     for i, (arg, vals) in enumerate(groups):
-        if arg["default"] is None and not ({"cfg", "any", "union"} & set(ty_kinds(arg["ty"], []))):
+        # (a declared default is validated by the type only — `addArgument` calls `argument.type.validate(default)`, not the
+        # checker: arguments with a checker are not exercised through that entry point)
+        if arg["default"] is None and not arg.get("choices") and not ({"cfg", "any", "union"} & set(ty_kinds(arg["ty"], []))):
             for j, (kind, vd, depth) in enumerate(vals):
                 if (i + j) % 4 == 0 and vd["k"] != "none" and kind != "none" and _clonable(vd):
                     ann = render_ty(arg["ty"], S_NAMES)
@@ -1107,7 +1129,16 @@ def one_set_case(ctx, cls, arg, kind, vd, depth, W0, impl, lines, impls, metas, 
         elif not ok_none and not equalish(t, sd, vdm, S_MROS):
             ctx.monitor_fail(f"stored-not-the-given-value:{'union' if has_union(t) else t['k']}",
                              f"Param[{tyname}] given {v!r} stores {stored!r}: not the given value up to the documented coercions", case)
-    if kind != "readonly" and not (vd["k"] == "none" and required(arg)) and coercible(t, vdm, S_MROS):
+    # (checkers are not part of the property's statement: no monitor of their own, the model comparison covers them)
+    refused = bool(arg.get("choices")) and out["r"] == "err" and vd["k"] != "none"
+    if refused:
+        # a conforming value outside the choices must be rejected: tell the checker's refusal from the type's by asking the type alone
+        try:
+            refused = not in_choices(arg, cls.__getxpmtype__().arguments["x"].type.validate(v), w)
+        except Exception:
+            refused = False
+    ctx.count("set_checker", "none" if not arg.get("choices") else ("refused" if refused else out["r"]))
+    if kind != "readonly" and not (vd["k"] == "none" and required(arg)) and coercible(t, vdm, S_MROS) and not refused:
         in_domain = union_domain(t)
         if not in_domain:
             ctx.count("conforming_outside_union_domain", out["r"])
@@ -1339,8 +1370,42 @@ def gen_lib(rng, hist=False):
         cl["args"] = [d for _, _, d in lib_table(classes + [cl], cl["mro"], None)]
         # the older public way of declaring parameters: class decorators @param / @option / @pathoption / @constant
         cl["deco"] = rng.random() < 0.3 and len(parents) <= 1 and not any("dkey" in a for a in own)
+        if not hist and rng.random() < 0.3:
+            # a user hook `__validate__`: raises ValueError when a scalar parameter has a given value, and (C17's idiom) may
+            # complete an unset optional parameter; inherited by the subclasses like any method
+            trig = [a for a in own if a["ty"]["k"] in ("int", "str") and not a["generator"] and not a["constant"]]
+            comp = [a for a in own if a["ty"] == T("opt", t=T("int")) and not a["generator"] and not a["constant"] and "dkey" not in a]
+            if trig:
+                a = rng.choice(trig)
+                cl["hook"] = {"name": a["name"], "v": D_int(7) if a["ty"]["k"] == "int" else D_str("hk")}
+                if comp and rng.random() < 0.5:
+                    cl["hook"]["complete"] = rng.choice(comp)["name"]
         classes.append(cl)
     return classes
+
+
+def eff_hook(classes, i):
+    """the `__validate__` an instance of class i runs (the first one along the MRO) as (index of the parameter in the argument table of
+    class i, trigger value), or None"""
+    for c in classes[i]["mro"]:
+        if c != BASE and classes[c].get("hook"):
+            h = classes[c]["hook"]
+            ks = [k for k, a in enumerate(classes[i]["args"]) if a["name"] == h["name"]]
+            return (ks[0], h["v"]) if ks else None
+    return None
+
+
+def hook_lines(c):
+    h = c.get("hook")
+    if not h:
+        return []
+    out = ["    def __validate__(self):"]
+    if h.get("complete"):
+        out += [f"        if self.{h['complete']} is None:", f"            self.{h['complete']} = 3"]
+    v = h["v"]
+    lit = v["i"] if v["k"] == "int" else json.dumps(v["s"])
+    out += [f"        if self.{h['name']} == {lit}:", f"            raise ValueError(\"{c['name']}: {h['name']} is refused by the hook\")"]
+    return out
 
 
 def c3_mro(i, parents, classes):
@@ -1424,6 +1489,7 @@ def render_lib(P, tag, classes, defaults):
             body.append(f"class {c['name']}({par}):\n    __xpmid__ = \"{P.name}.{tag}.g{i}\"")
             if c["base"] in ("Task", "LightweightTask"):
                 body.append("    def execute(self):\n        pass")
+            body.extend(hook_lines(c))
             continue
         body.append(f"\n\nclass {c['name']}({par}):\n    __xpmid__ = \"{P.name}.{tag}.g{i}\"")
         for a in c["own"]:
@@ -1440,6 +1506,7 @@ def render_lib(P, tag, classes, defaults):
             body.append("    pass")
         if c["base"] in ("Task", "LightweightTask"):
             body.append("    def execute(self):\n        pass")
+        body.extend(hook_lines(c))
     return "\n".join(body) + "\n"
 
 
@@ -1482,6 +1549,9 @@ def gen_graph(rng, classes, mros, complete=False, hist=False):
                 continue
             inner = a["ty"]["t"] if a["ty"]["k"] == "opt" else a["ty"]
             nd["vals"][k] = vg.conforming(inner, size=max(0, 3 - depth))
+            eh = eff_hook(classes, cc)
+            if eh and eh[0] == k and inner["k"] == eh[1]["k"] and rng.random() < 0.25:
+                nd["vals"][k] = dict(eh[1])   # the value the `__validate__` hook of this class refuses
             if nd["vals"][k]["k"] == "none":
                 nd["vals"][k] = None
         if lws and depth < 3 and rng.random() < 0.15:
@@ -1661,6 +1731,7 @@ def graph_line(impl, classes, g, mros):
                          for a in c["args"]] for c in classes],
             "nodes": [{"cls": nd["cls"], "vals": [None if v is None else with_mro(v, mros) for v in nd["vals"]], "pre": nd["pre"], "init": nd["init"]}
                       for nd in g["nodes"]],
+            "hooks": [[i, eh[0], eh[1]] for i in range(len(classes)) for eh in [eff_hook(classes, i)] if eh],
             "root": g["root"]}
 
 
@@ -1691,7 +1762,7 @@ def classes_py(W):
 
 def run_graph_case(ctx, classes, defaults, W, mros, g, lines, impls, metas, with_submit=True, force_resubmit=None):
     impl = probe_impl(ctx)
-    case = {"op": "graph", "classes": [{k: c[k] for k in ("name", "base", "parent", "parents", "own", "args", "mro") if k in c} for c in classes], "defaults": defaults,
+    case = {"op": "graph", "classes": [{k: c[k] for k in ("name", "base", "parent", "parents", "own", "args", "mro", "hook") if k in c} for c in classes], "defaults": defaults,
             "nodes": g["nodes"], "root": g["root"], "removed": g.get("removed", [])}
     reach_deep = reachable(g, classes, True)
     reach_top = reachable(g, classes, False)
@@ -1777,6 +1848,9 @@ def run_graph_case(ctx, classes, defaults, W, mros, g, lines, impls, metas, with
     ctx.count("graph_removal_depth", depth if g.get("removed") else "-")
     ctx.count("graph_missing", "none" if not miss_deep else ("direct" if miss_top else "container-only"))
     ctx.count("graph_cyclic", cyc)
+    hooked = [n for n in reach_deep if eff_hook(classes, g["nodes"][n]["cls"])]
+    trig = [n for n in hooked for eh in [eff_hook(classes, g["nodes"][n]["cls"])] if g["nodes"][n]["vals"][eh[0]] == eh[1]]
+    ctx.count("graph_hooks", "none" if not hooked else ("a reachable hook raises" if trig else "reachable hooks pass"))
     ctx.count("validate_outcome", v1)
 
 
@@ -1867,7 +1941,7 @@ def check_tables(ctx, classes, defaults, W, source="generated", with_model=True)
     impl = probe_impl(ctx)
     lin = probe_lin(ctx)
     tabs, rmros = real_tables(classes, W)
-    case = {"op": "lib", "classes": [{k: c[k] for k in ("name", "base", "parent", "parents", "own", "args", "mro") if k in c} for c in classes],
+    case = {"op": "lib", "classes": [{k: c[k] for k in ("name", "base", "parent", "parents", "own", "args", "mro", "hook") if k in c} for c in classes],
             "defaults": defaults}
     for i, c in enumerate(classes):
         if rmros[i] != c["mro"]:
@@ -2080,7 +2154,7 @@ def run_history_case(ctx, classes, defaults, W, mros, h, lines, impls, metas):
     at every submit of the history"""
     from experimaestro import experiment
     impl = probe_impl(ctx)
-    case = {"op": "history", "classes": [{k: c[k] for k in ("name", "base", "parent", "parents", "own", "args", "mro") if k in c} for c in classes], "defaults": defaults,
+    case = {"op": "history", "classes": [{k: c[k] for k in ("name", "base", "parent", "parents", "own", "args", "mro", "hook") if k in c} for c in classes], "defaults": defaults,
             "nodes": h["nodes"], "ops": h["ops"], "removed": h.get("removed", []), "root": h.get("root", 0)}
     w = W.fresh()
     nodes = h["nodes"]
@@ -2266,7 +2340,25 @@ def skipjob_case(kind="path", position="direct"):
             "removed": [[1, 0, 1]], "root": 0}
 
 
-CORPUS = [N5_CASE, F10_CASE, N1_CASE, N2_CASE, f11_case(True, "list"), f11_case(False, "list"), f11_case(True, "dict"), n3_case()] + \
+def _scalar_case(ty, v, choices=None):
+    arg = {"ty": T(ty), "default": None, "generator": False, "constant": False}
+    if choices:
+        arg["choices"] = choices
+    return {"kind": "set", "arg": arg, "v": v}
+
+
+# the boundaries of the scalar validators (each entry of the tables that translate/typesrc.py reads), always run
+SCALAR_CORPUS = [_scalar_case("int", D_float(x)) for x in (-2.5, 2.5, -0.5, -3.0, 1e300, math.inf, -math.inf, math.nan, -0.0)] + \
+    [_scalar_case("int", v) for v in (D_str("3"), {"k": "bool", "b": True}, NONE, D_list([D_int(1)]))] + \
+    [_scalar_case("float", v) for v in (D_str("1.5"), D_int(2**1024), D_int(3), {"k": "bool", "b": True}, D_float(math.nan))] + \
+    [_scalar_case("str", v) for v in (D_int(1), D_path("a"), D_str(""))] + \
+    [_scalar_case("bool", v) for v in (D_int(0), D_str(""), D_str("x"), D_list([]))] + \
+    [_scalar_case("path", v) for v in (D_str("a//b/./c"), D_path("/x"), D_int(1), D_dict([(K_str("$type"), D_str("path")), (K_str("$value"), D_str("p/q"))]),
+                                       D_dict([(K_str("$value"), D_str("p/q"))]), D_dict([(K_str("a"), D_int(1))]))] + \
+    [_scalar_case("int", v, [D_int(1), D_int(2)]) for v in (D_int(2), D_int(5), D_float(2.0), D_str("a"))] + \
+    [_scalar_case("str", v, [D_str("a"), D_str("b")]) for v in (D_str("a"), D_str("c"))]
+
+CORPUS = SCALAR_CORPUS + [N5_CASE, F10_CASE, N1_CASE, N2_CASE, f11_case(True, "list"), f11_case(False, "list"), f11_case(True, "dict"), n3_case()] + \
     [skipjob_case(k, pos) for k in ("path", "meta") for pos in ("direct", "list", "dict")]
 
 
@@ -2341,8 +2433,8 @@ def correspond(ctx):
         done += k
     run_decl_cases(ctx, rng, ctx.scale(40, 400))
     t1 = time.time()
-    run_table_cases(ctx, rng, ctx.scale(12, 250))
-    nlibs, per = ctx.scale((12, 17), (110, 22))
+    run_table_cases(ctx, rng, ctx.scale(10, 250))
+    nlibs, per = ctx.scale((11, 16), (110, 22))
     run_graphs(ctx, rng, nlibs, per)
     t2 = time.time()
     nlibs, per = ctx.scale((8, 12), (60, 15))
